@@ -332,6 +332,17 @@ def strip_layout(t):
     return t
 
 
+def run_loads_fragment(binp, texts, tag, timeout=3000):
+    inp = os.path.join(vlib.scratch(), f"loadop_{tag}.ndjson")
+    outp = os.path.join(vlib.scratch(), f"loadop_{tag}.out")
+    vlib.write_ndjson(inp, [{"id": i, "text": t, "fragment": True} for i, t in enumerate(texts)])
+    rc, lines, err = vlib.run_harness(binp, ["load-op", "--cases", inp, "--out", outp], timeout=timeout)
+    if rc != 0:
+        vlib.tool_error(f"load-op (fragment) failed rc={rc}: {err[-600:]}")
+    with open(outp) as f:
+        return [json.loads(l) for l in f if l.strip()]
+
+
 def outcome_of(r):
     if r.get("ok"):
         return {"ok": True, "diags": [[d[0], d[1]] for d in r["diags"]], "tree": "none"}
